@@ -4,6 +4,7 @@ import (
 	"bufio"
 	"encoding/json"
 	"fmt"
+	"math/rand"
 	"os"
 	"regexp"
 	"regexp/syntax"
@@ -755,3 +756,68 @@ func compareJSONDoc(c *rawCase, want string, doc []byte) string {
 	}
 	return ""
 }
+
+func init() { commands["lex-long"] = lexLong }
+
+// lex-long <raw.json> <seed> <maker>: long random inputs (17..80 symbols over the alphabet plus invalid bytes, ending in runs
+// of invalid bytes) for every definition: the clauses of C07 that need no specification - no panic, no hang, progress,
+// a located error or EOF at the end, and the same after further calls.  Prints "BAD\tid\tquoted input\toutcome".
+func lexLong(args []string) error {
+	raw, err := readRaw(args[0])
+	if err != nil {
+		return err
+	}
+	seed, _ := strconv.Atoi(args[1])
+	maker := makerByName(args[2])
+	rng := rand.New(rand.NewSource(int64(seed)))
+	syms := [][]byte{}
+	for _, a := range raw.Alpha {
+		b := make([]byte, len(a.Bytes))
+		for i, x := range a.Bytes {
+			b[i] = byte(x)
+		}
+		syms = append(syms, b)
+	}
+	invalid := [][]byte{{0xFF}, {0xFE}, {0xC3}, {0xFF, 0xFE}, {0xE2, 0x82}, {0xF0, 0x9F}}
+	n, bad := 0, 0
+	for ci := range raw.Cases {
+		c := &raw.Cases[ci]
+		def, _ := maker(c)
+		if def == nil {
+			continue
+		}
+		names := symbolNames(def)
+		for k := 0; k < 24; k++ {
+			var in []byte
+			for j, m := 0, rng.Intn(40); j < m; j++ {
+				in = append(in, syms[rng.Intn(len(syms))]...)
+			}
+			for j, m := 0, 17+rng.Intn(40); j < m; j++ {
+				if k%3 == 0 && rng.Intn(4) == 0 {
+					in = append(in, syms[rng.Intn(len(syms))]...)
+				} else {
+					in = append(in, invalid[rng.Intn(len(invalid))]...)
+				}
+			}
+			got := runLexer(def, names, string(in), 2, "f.txt")
+			n++
+			ok := !strings.Contains(got, "PANIC") && got != "HANG" && !strings.Contains(got, "BAD") && !strings.Contains(got, "ERRNOPOS") &&
+				(strings.Contains(got, "ERR@") || strings.Contains(got, "EOF@"))
+			if got == "HANG" && hangsByDesign(c) {
+				ok = true
+			}
+			if !ok {
+				bad++
+				if bad <= 20 {
+					fmt.Printf("BAD\t%s\t%q\t%s\n", c.ID, in, got)
+				}
+			}
+		}
+	}
+	fmt.Printf("DONE\t%d\t%d\n", n, bad)
+	return nil
+}
+
+// hangsByDesign: (reserved) definitions whose rules can loop without consuming are rejected by the lexer with an error, so
+// no definition is expected to hang.
+func hangsByDesign(*rawCase) bool { return false }
